@@ -29,7 +29,7 @@ type Server struct {
 	exists  map[string]bool
 	Log     []Cmd
 	n       int
-	FailAt  int // fail the command with this index (1-based, counting data commands) ; 0 = never
+	FailAt  int  // fail the command with this index (1-based, counting data commands) ; 0 = never
 	Failed  *Cmd // the command that was made to fail, once it happened
 	reqid   int32
 	Verbose bool
